@@ -58,6 +58,9 @@ func Run(c *core.Ctx) core.FinishOpts {
 		if only != "" && tc.id != only {
 			return
 		}
+		if selftest && i%40 != 3 {
+			return // self-test: only the cases whose recording is corrupted are run
+		}
 		var wrong func([]sqlref.Row) []sqlref.Row
 		if selftest && i%40 == 3 {
 			switch (i / 40) % 3 {
@@ -140,7 +143,7 @@ func Run(c *core.Ctx) core.FinishOpts {
 		c.Sample(map[string]interface{}{"id": tc.id, "sql": tc.q.SQL(), "mode": tc.mode, "table_rows": len(tc.tables[0].Rows), "result_rows": rowsOut})
 	})
 
-	if only == "" {
+	if only == "" && !selftest {
 		percentProbes(c, runner)
 		likeNewlineProbes(c, runner)
 	}
